@@ -3,7 +3,7 @@ CONSTANTS
   Fields = {"F"}
   Handles = {1, 2}
   MaxLen = 3
-  MaxSteps = 5
+  MaxSteps = 4
   Extras = FALSE
   Emit = FALSE
   SharedTokenCache = FALSE
